@@ -20,11 +20,27 @@ claim(
     "DESIGN.md section 4 (SIB), section 5 C01",
 )
 
-na(
+claim(
     "C25",
-    "every clause relates returned values to argument values (lengths, membership, arithmetic "
-    "exactness, truncation bounds); no shape of the code implies them, and the only structural "
-    "fragment (array filters return new lists) is the no-mutation rule claimed under C17",
+    "TBL+KINDS",
+    "static: delegation-form and operator tables over the registered filter implementations (ast), a two-exit length argument on truncate_chars, path-sensitive kind inference on `default`",
+    "Clauses only — the sentences of the property that say 'this filter IS that operation' (the rest "
+    "relates returned values to argument values and is not decided): upcase/downcase/capitalize/strip/"
+    "lstrip/rstrip are exactly val.upper()/lower()/capitalize()/strip()/lstrip()/rstrip() behind the "
+    "string coercion; size is len(obj), and 0 on TypeError only; plus/minus/times/modulo/divided_by/abs/"
+    "ceil/floor/at_least/at_most apply the operator of their name to (num, other) in that order, with "
+    "integer arithmetic for two ints and decimal.Decimal(str(x)) arithmetic otherwise (no binary float "
+    "operation), // vs / for divided_by, the argument converted by num_arg(default=0), all behind "
+    "math_filter; truncate_chars returns val iff len(val) <= num and otherwise "
+    "val[:max(num - len(end), 0)] + end, so the result ends in the ellipsis and is no longer than "
+    "max(num, len(end)); first/last select getitem(x, 0)/getitem(x, -1); `default` with a nil left value "
+    "can only return its argument. Each holds for every input by the shape of the implementation, "
+    "given Python's str/len/min/max/abs/math/decimal as the meaning of 'the corresponding operation'.",
+    "Not decided (value level): split/join round trip, membership/order of the array filters (that they "
+    "return new lists is C17-INPUT), slice, truncatewords, round and the rounding of float results, "
+    "`default` for false/undefined/empty. A filter re-implemented without delegating (e.g. a hand-written "
+    "upper-casing loop) would be reported for review: the rule decides the delegation form, not equivalence.",
+    "DESIGN.md section 5 C25 (revised in section 10)",
 )
 
 claim(
